@@ -1,4 +1,5 @@
-"""Per-property configuration of ./check: translators needed, clause labels, trusted base."""
+"""Per-property configuration of ./check, loaded from props.d/<id>.json."""
+import glob, json, os
 
 # Axioms of the standard library that may appear under Print Assumptions (named in DESIGN.md section 7).
 STD_AXIOMS = {
@@ -8,23 +9,6 @@ STD_AXIOMS = {
     "Classical_Prop.classic",
 }
 
-PROPS = {
-    "C12": {
-        "gen": [],
-        "clauses": {
-            "cursor_refines_spec": "F: every contract-respecting history on every constructor equals the abstract cursor",
-            "peekrune_total": "F: no panic, length never past the end, all byte strings",
-            "peekrune_valid": "F: RFC 3629 code point and length on valid sequences",
-            "restore_frame": "F: caller's bytes untouched; borrowed byte restored",
-            "reader_error_spec": "F: failing reader => Err=its error, Peek 0 = 0, Len = 0",
-        },
-        "assumptions": [
-            "io.ReadAll is modelled as concatenation of the delivered chunks or the reader's error",
-            "cap(buf) beyond len(buf) is not modelled: histories keep pos <= len(buf)",
-        ],
-        "trusted_base": ["hand-written model Cursor/Model.v of input.go and buffer/lexer.go, tied by the correspondence run"],
-        "level_text": "Coq theorems over all inputs, constructors and contract-respecting operation histories (refinement of the documented cursor, PeekRune totality/validity, Restore frame, reader errors) about a hand-written executable model of input.go and buffer/lexer.go; the model is tied to the code on every run by a differential run of the extracted model against the implementation on ~25k random and exhaustive small histories, plus a Go oracle written from the documentation.",
-        "level_note": "Trusted: Coq kernel, extraction (ExtrOcamlBasic), the Go harness; the correspondence check samples, it does not prove, that model and code agree. cap(buf) beyond len(buf) and io.ReadAll are modelled, not verified.",
-        "technique": "Coq refinement proof (induction over operation lists) + extracted-model differential check",
-    },
-}
+PROPS = {}
+for _p in sorted(glob.glob(os.path.dirname(os.path.abspath(__file__)) + "/props.d/C*.json")):
+    PROPS[os.path.basename(_p)[:-5]] = json.load(open(_p))
